@@ -503,7 +503,7 @@ def pollE (s : State) : State := eLoop 4 { s with eWoken := false }
 /-! ## awaiters -/
 
 def pollAw (loading : Bool) (value : Option Val) (a : Aw) : Aw :=
-  if a.kind = .tick ∨ a.aborted = true then { a with woken := false, done := true, parked := false }
+  if a.kind = .tick ∨ (a.kind = .saw ∧ a.aborted = true) then { a with woken := false, done := true, parked := false }
   else if loading then { a with woken := false, parked := true }
   else { a with woken := false, done := true, result := value }
 
